@@ -228,6 +228,12 @@ func mustFollow(r *core.Run, id, fnName, what string, triggers []guard.Atom, res
 				}
 				return m
 			},
+			condEv: func(ck *guard.Checker, v ssa.Value, truth bool) string {
+				if ck.ValueEstablishes(v, truth, respAtoms) {
+					return "resp"
+				}
+				return ""
+			},
 			step: func(st uint8, ev string) (uint8, string) {
 				switch {
 				case ev == "resp":
